@@ -20,7 +20,7 @@
 (* pre-image byte sequences to 32-byte digests; every pre-image is built   *)
 (* here exactly as the specification text builds it.                       *)
 (***************************************************************************)
-EXTENDS Shuffle
+EXTENDS Shuffle, TLC
 
 Min2(a, b) == IF a <= b THEN a ELSE b
 
@@ -68,15 +68,17 @@ Seed(P, mixes, e, domain, HT) == HT[SeedPre(P, mixes, e, domain)]
 (* the hashes for one (seed, index_count): the pivots and the 32-byte      *)
 (* sources of every round.                                                 *)
 
+\* ctx = [n, R, piv, bit] with piv[r] the pivot and bit[r][pos] the coin of round r (abstract level of Shuffle.tla)
+\* (TLCEval only forces TLC to evaluate the tables once instead of at every application)
 ShufCtx(n, R, seed, HT) ==
-    [n |-> n, R |-> R,
-     piv |-> [r \in 0 .. R - 1 |-> IF n = 0 THEN 0 ELSE PivotOf(HT[PivotPre(seed, r)], n)],
-     src |-> [r \in 0 .. R - 1 |-> [w \in 0 .. NumWindows(n) - 1 |-> HT[SourcePre(seed, r, w)]]]]
-
-CtxBit(ctx) == [r \in 0 .. ctx.R - 1 |-> [pos \in 0 .. ctx.n - 1 |-> BitOf(ctx.src[r][pos \div 256], pos)]]
+    LET src == TLCEval([r \in 0 .. R - 1 |->
+                         TLCEval([w \in 0 .. NumWindows(n) - 1 |-> HT[SourcePre(seed, r, w)]])])
+    IN [n |-> n, R |-> R,
+        piv |-> TLCEval([r \in 0 .. R - 1 |-> IF n = 0 THEN 0 ELSE PivotOf(HT[PivotPre(seed, r)], n)]),
+        bit |-> [r \in 0 .. R - 1 |-> [pos \in 0 .. n - 1 |-> BitOf(src[r][pos \div 256], pos)]]]
 
 \* compute_shuffled_index(index, index_count, seed)
-ShuffledIndex(i, ctx) == PermIdx(i, ctx.n, ctx.R, ctx.piv, CtxBit(ctx))
+ShuffledIndex(i, ctx) == PermIdx(i, ctx.n, ctx.R, ctx.piv, ctx.bit)
 
 (***************************** committees *********************************)
 
@@ -89,14 +91,16 @@ ComputeCommittee(indices, ctx, index, count) ==
 
 \* all committees of an epoch: sequence over the slots of the epoch of sequences over committee indices of
 \* get_beacon_committee(state, slot, index)
-EpochCommittees(P, vals, mixes, HT, e) ==
-    LET active == ActiveIdx(vals, e)
-        cps == CommitteeCountPerSlot(P, Len(active))
-        seed == Seed(P, mixes, e, DOMAIN_BEACON_ATTESTER, HT)
-        ctx == ShufCtx(Len(active), P.SHUFFLE_ROUND_COUNT, seed, HT)
+EpochCommitteesOf(P, active, ctx) ==
+    LET cps == CommitteeCountPerSlot(P, Len(active))
     IN [s \in 1 .. P.SLOTS_PER_EPOCH |->
           [c \in 1 .. cps |->
               ComputeCommittee(active, ctx, (s - 1) * cps + (c - 1), cps * P.SLOTS_PER_EPOCH)]]
+
+EpochCommittees(P, vals, mixes, HT, e) ==
+    LET active == ActiveIdx(vals, e)
+        seed == Seed(P, mixes, e, DOMAIN_BEACON_ATTESTER, HT)
+    IN EpochCommitteesOf(P, active, ShufCtx(Len(active), P.SHUFFLE_ROUND_COUNT, seed, HT))
 
 (****************************** proposers *********************************)
 
